@@ -230,12 +230,27 @@ func propC10(c *Ctx) {
 	}
 	for _, name := range []string{"(*udp.endpoint).Close", "(*tcp.endpoint).Close"} {
 		if fn := c.Fn(q4, name); fn != nil {
-			rels := c.Calls(fn, release, false)
+			// through the site list, so that a release moved into a helper that
+			// did not exist at review time still counts (inline.go)
+			var rels []Site
+			for _, st := range Sites(fn) {
+				if st.Kind == "call" && release(st.Target) {
+					rels = append(rels, st)
+				}
+			}
 			c.Check(len(rels) >= 1, q4, name+"/releases", c.P.Pos(fn.Pos()), "Close releases the port reservation", "Close no longer releases the port reservation")
 			for _, rel := range rels {
-				c.ArgIs(q4, "release-addr", rel, 3, "$0.id.LocalAddress")
-				c.ArgIs(q4, "release-port", rel, 4, "$0.id.LocalPort")
-				c.ArgIs(q4, "release-nets", rel, 1, "$0.effectiveNetProtos")
+				for _, a := range []struct {
+					key  string
+					idx  int
+					want string
+				}{{"release-addr", 3, "$0.id.LocalAddress"}, {"release-port", 4, "$0.id.LocalPort"}, {"release-nets", 1, "$0.effectiveNetProtos"}} {
+					got := ""
+					if a.idx < len(rel.Args) {
+						got = rel.Args[a.idx]
+					}
+					c.Check(got == a.want, q4, name+"/"+a.key, c.pos(rel.Instr), "argument "+itoa(a.idx)+" is "+got, "argument "+itoa(a.idx)+" is "+got+", expected "+a.want)
+				}
 			}
 		}
 	}
